@@ -39,7 +39,7 @@ def step (args : List String) : String :=
         let stuck := s.badSweeps > 0
         -- the first owned window contains an evaluation (every group is due), except in the lost wake-up scenario
         let live := if early == "1" then 0 else 1
-        s!"locks={locks} unlocks={unlocks} gap={if stuck then "stuck" else "0"} live={live} pace=ok prelock=0" ++
+        s!"locks={locks} unlocks={unlocks} gap={if stuck then "stuck" else "0"} live={live} pace=ok prelock=0 burst=ok" ++
           (if stuck then " ~specviol=D12" else "")
     | _, _ => "bad-op"
   | _ => "bad-op"
